@@ -8,7 +8,6 @@ import (
 	"os"
 	"os/exec"
 	"strconv"
-	"syscall"
 
 	webp "github.com/deepteams/webp"
 	"github.com/deepteams/webp/animation"
@@ -86,12 +85,6 @@ func c05ScaleGens() []c05ScaleGen {
 		}
 	}
 	return out
-}
-
-func cpuSeconds() float64 {
-	var ru syscall.Rusage
-	syscall.Getrusage(syscall.RUSAGE_SELF, &ru)
-	return float64(ru.Utime.Sec+ru.Stime.Sec) + float64(ru.Utime.Usec+ru.Stime.Usec)/1e6
 }
 
 // c05AllEntries runs every parsing/decoding entry point once and returns how many accepted the input.
